@@ -29,7 +29,7 @@ var c18Features = []c18Feature{
 	{"embedded", []string{"none", "embed", "object", "applet", "iframe"}},
 }
 
-var c18Contexts = []string{"body", "div", "li", "blockquote", "layout-cell"}
+var c18Contexts = []string{"body", "div", "li", "blockquote", "layout-cell", "after-abbr-table", "after-summary-table", "after-5col-table", "after-20row-table", "after-th-table", "after-layout-table"}
 
 func c18Rows(shape string) []int {
 	switch shape {
@@ -173,7 +173,38 @@ func c18Doc(v []int, ctx string) string {
 	if c18Features[0].vals[v[0]] == "yes" {
 		tbl = "<div contenteditable=\"true\">" + tbl + "</div>"
 	}
+	// an earlier, different table in the same document ("the same table is classified the same way
+	// wherever it occurs"): each one leaves by a different rule of the cascade
+	pre := func(attrs, firstCell string, rows, cols int) string {
+		var sb strings.Builder
+		sb.WriteString("<table id=\"outer\"" + attrs + ">")
+		for r := 0; r < rows; r++ {
+			sb.WriteString("<tr>")
+			for c := 0; c < cols; c++ {
+				if r == 0 && c == 0 && firstCell != "" {
+					sb.WriteString(firstCell)
+					continue
+				}
+				sb.WriteString("<td>x" + fmt.Sprint(r*cols+c) + "y</td>")
+			}
+			sb.WriteString("</tr>")
+		}
+		sb.WriteString("</table>")
+		return sb.String()
+	}
 	switch ctx {
+	case "after-abbr-table":
+		tbl = pre("", "<td abbr=\"a\">x0y</td>", 2, 2) + "<p>" + t.W(21) + "</p><p>" + t.W(22) + "</p>" + tbl
+	case "after-summary-table":
+		tbl = pre(" summary=\"s\"", "", 2, 2) + "<p>" + t.W(21) + "</p><p>" + t.W(22) + "</p>" + tbl
+	case "after-5col-table":
+		tbl = pre("", "", 2, 5) + "<p>" + t.W(21) + "</p><p>" + t.W(22) + "</p>" + tbl
+	case "after-20row-table":
+		tbl = pre("", "", 20, 2) + "<p>" + t.W(21) + "</p><p>" + t.W(22) + "</p>" + tbl
+	case "after-th-table":
+		tbl = pre("", "<th>x0y</th>", 3, 2) + "<p>" + t.W(21) + "</p><p>" + t.W(22) + "</p>" + tbl
+	case "after-layout-table":
+		tbl = pre(" role=\"presentation\"", "", 3, 4) + "<p>" + t.W(21) + "</p><p>" + t.W(22) + "</p>" + tbl
 	case "div":
 		tbl = "<div>" + tbl + "</div>"
 	case "li":
@@ -416,8 +447,28 @@ func c18Check(c *eng.Case) *eng.Outcome {
 	}
 	// host retained?
 	textSet := ora.Set(a.TextWords)
-	if !textSet["w21q"] || !textSet["w42q"] {
-		o.Skipped = "paragraphs before the table not retained"
+	// a data table is retained iff the nearest preceding text is (C08): without that the
+	// rendering path cannot be observed
+	prevWord := ""
+	for _, n := range a.SrcNodes {
+		if n == nil {
+			continue
+		}
+		inside := false
+		for p := n.Parent; p != nil; p = p.Parent {
+			if p == tbl {
+				inside = true
+			}
+		}
+		if inside {
+			break
+		}
+		if ws := ora.Words(n.Data); len(ws) > 0 {
+			prevWord = ws[len(ws)-1]
+		}
+	}
+	if prevWord == "" || !textSet[prevWord] {
+		o.Skipped = "text before the table not retained"
 		return o
 	}
 	first, last := ownWords[0], ownWords[len(ownWords)-1]
@@ -468,7 +519,7 @@ func init() {
 		ID:        "C18",
 		DesignRef: "§5 C18",
 		Rule: "feature vectors editable{2} x table role{6} x descendant role{4} x datatable{3} x nested{2} x shape{10: 3x4,1x2,2x1,2x2,2x4,2x5,4+4+2,4+4+3,19x2,20x2} x header{9} x cell feature{6} x summary{2} x embedded{5} (1.56e6 vectors); " +
-			"quick: every vector with <= 3 features off the default in body and <= 2 in {div, li, blockquote, layout-table cell}; thorough: all vectors in body and <= 3 deviations in the other contexts. Each vector is rendered as a table after two content paragraphs. " +
+			"quick: every vector with <= 3 features off the default in body and <= 2 in {div, li, blockquote, layout-table cell, after an earlier table that is data by a cell attribute / summary / 5 columns / 20 rows / th, after an earlier layout table}; thorough: all vectors in body and <= 3 deviations in the other contexts. Each vector is rendered as a table after two content paragraphs. " +
 			"Oracle: the statement's 14-rule decision list evaluated on the parsed table vs. observation through the public API (a form-control probe in the first cell survives, inside a <table> together with the first and last cell words, iff the table was preserved as data). Vectors whose verdict depends on whether <th> counts as a cell, and empty caption/th, are observe-only. " +
 			"Non-trivial = >= 2 rule-relevant features set, or a threshold shape.",
 		Enumerate: c18Enumerate,
